@@ -435,6 +435,15 @@ func (e *Enc) encAlloc(ins *ssa.Alloc, st *State) {
 		}
 	}
 	e.lv[ins] = l
+	if sc := e.structContract(elem); sc != nil && len(sc.ZeroInit) > 0 {
+		ctx := e.ctxAt(st, e.curBlock, e.curIdx)
+		ctx.bind = map[string]TV{"this": {T: r, Typ: ins.Type(), Sort: "Ref"}}
+		ctx.noLocals = true
+		ctx.useParams = false
+		for _, c := range sc.ZeroInit {
+			e.assume(ctx.evalBool(c))
+		}
+	}
 }
 
 func (e *Enc) encUnOp(ins *ssa.UnOp, st *State) {
@@ -839,6 +848,15 @@ func (e *Enc) encReturn(ins *ssa.Return, st *State) {
 			nm = fmt.Sprint(i)
 		}
 		e.oblige("post", fmt.Sprintf("%s@ret%d", nm, e.retCount-1), nm, g, goal, ins.Pos(), c.Src)
+	}
+	for i, c := range e.fc.RetAsserts {
+		rc := e.ctxReturn(st, ins)
+		rc.paramsFirst = false
+		nm := c.Name
+		if nm == "" {
+			nm = fmt.Sprint(i)
+		}
+		e.oblige("ret", fmt.Sprintf("%s@ret%d", nm, e.retCount-1), nm, g, rc.evalBool(c), ins.Pos(), c.Src)
 	}
 	e.frameObligation(st, g, ins.Pos())
 }
